@@ -100,6 +100,13 @@ void ezc3d::c3d::write(const std::string& filePath) const
 #endif
     this->parameters().write(f);
 
+    // The block where the data start is only known now, write it in the header (word 9)
+    std::streampos dataStartPosition(f.tellg());
+    int dataStartBlock(static_cast<int>(dataStartPosition)/512 + 1);
+    f.seekg(8*ezc3d::DATA_TYPE::WORD);
+    f.write(reinterpret_cast<const char*>(&dataStartBlock), 1*ezc3d::DATA_TYPE::WORD);
+    f.seekg(dataStartPosition);
+
     // Write the data
 #ifdef MELUND_EZC3D_VERIF
     MELUND_EZC3D_VERIF_HOOK(22, 0, 0);
